@@ -2,9 +2,11 @@ package main
 
 import (
 	"fmt"
+	"go/constant"
 	"go/token"
 	"go/types"
 	"os"
+	"strconv"
 	"strings"
 
 	"golang.org/x/tools/go/ssa"
@@ -34,6 +36,8 @@ func init() {
 			ruleIndexErrors(c, "C03.ERR")
 			// a refusal by a parent-level constraint reaches the caller: one holder for the whole chain
 			ruleErrHolderShared(c, "C03.HOLDER")
+			// the parent's indexes see the same kind of change (create / update) as the child's
+			ruleParentChain(c, "C03.CHAIN")
 		},
 	})
 	register(&Property{
@@ -58,6 +62,7 @@ func init() {
 			// the cascade re-positions its id cursor with Seek(Current()) after every delete: Seek must really
 			// re-seek the underlying bolt cursor
 			ruleSeekAbsolute(c, "C04.RESEEK")
+			ruleSymbolKeyRoles(c, "C04.SYMKEY")
 			ruleErrHolderShared(c, "C04.HOLDER")
 		},
 		Controls: []controlExpect{{"C04.INJECT", "zzControlBad_C04_INJECT", true}},
@@ -1053,77 +1058,169 @@ func builtText(v ssa.Value, depth int) (bool, string) {
 func ruleFkWiring(c *Ctx, rule string) {
 	p := c.P
 	addC := p.Method("boltz", "Indexer", "AddConstraint")
-	for _, w := range []struct {
-		m        string
-		own, del string
-	}{
-		// the exported entry points (their shared unexported helper is expanded by the normalisation pass)
-		{"AddFkIndex", "fkIndex", "fkDeleteConstraint"},
-		{"AddNullableFkIndex", "fkIndex", "fkDeleteConstraint"},
-		{"AddFkIndexCascadeDelete", "fkIndex", "fkDeleteCascadeConstraint"},
-		{"AddFkConstraint", "fkConstraint", "fkDeleteCascadeConstraint"},
-	} {
-		fn := p.SSAFunc(p.Method("boltz", "Indexer", w.m))
-		name := FnName(fn)
-		c.Analysed(name)
-		ownT, delT := p.Named("boltz", w.own), p.Named("boltz", w.del)
-		regs := func(t *types.Named, onSelf bool) []ssa.CallInstruction {
-			var out []ssa.CallInstruction
-			for _, call := range callsIn(fn) {
-				cc := call.Common()
-				var arg ssa.Value
-				if cc.IsInvoke() && cc.Method.Name() == "AddConstraint" && !onSelf {
-					arg = cc.Args[0]
-				} else if isCallTo(call, addC) && onSelf && cc.Args[0] == ssa.Value(fn.Params[0]) {
-					arg = cc.Args[1]
-				} else {
-					continue
-				}
-				if mi, ok := arg.(*ssa.MakeInterface); ok && namedOf(mi.X.Type()) == t {
-					out = append(out, call)
-				}
+	cascadeDelete := constInt(p.Obj("boltz", "CascadeDelete"))
+	createUpdate := constInt(p.Obj("boltz", "CascadeCreateUpdate"))
+	fieldIdx := func(t *types.Named, name string) string {
+		st, _ := t.Underlying().(*types.Struct)
+		for i := 0; st != nil && i < st.NumFields(); i++ {
+			if st.Field(i).Name() == name {
+				return fmt.Sprintf(".f%d", i)
 			}
-			return out
 		}
-		own, del := regs(ownT, true), regs(delT, false)
-		ok := len(own) >= 1 && len(del) >= 1
-		why := fmt.Sprintf("forward registrations: %d, delete-side registrations on the target store: %d", len(own), len(del))
-		if ok {
-			// every non-panicking return passes both (AddFkConstraint: the delete side unless cascade == CascadeCreateUpdate)
-			isOwn := func(in ssa.Instruction) bool { return in == ssa.Instruction(own[0]) }
-			ri := reachWithout(fn, isOwn)
-			for _, r := range returnsOf(fn) {
-				if ri.Reaches(r) {
-					ok, why = false, "a return is reachable without registering the forward constraint"
+		return ".f?"
+	}
+	// what each exported entry point must register — decided by running it with symbolic parameters and
+	// looking at the AddConstraint calls it makes (on the indexer itself and, through Constrained, on another
+	// store), wherever they are written (in place, in shared helpers, through a variable)
+	type want struct {
+		typ    string
+		on     string            // "self" | "store:<param>" | "linked:<param>"
+		fields map[string]string // field -> expected value ("param:x", "true", "false", "const:N")
+	}
+	type row struct {
+		m      string
+		consts map[string]int64 // parameters fixed for this scenario
+		wants  []want
+	}
+	rows := []row{
+		{"AddFkIndex", nil, []want{
+			{"fkIndex", "self", map[string]string{"symbol": "param:1", "fkSymbol": "param:2", "nullable": "false"}},
+			{"fkDeleteConstraint", "store:2", map[string]string{"symbol": "param:2", "fkSymbol": "param:1"}}}},
+		{"AddNullableFkIndex", nil, []want{
+			{"fkIndex", "self", map[string]string{"symbol": "param:1", "fkSymbol": "param:2", "nullable": "true"}},
+			{"fkDeleteConstraint", "store:2", map[string]string{"symbol": "param:2", "fkSymbol": "param:1"}}}},
+		{"AddFkIndexCascadeDelete", nil, []want{
+			{"fkIndex", "self", map[string]string{"symbol": "param:1", "fkSymbol": "param:2", "nullable": "false"}},
+			{"fkDeleteCascadeConstraint", "store:2", map[string]string{"symbol": "param:1", "cascadeType": fmt.Sprintf("const:%d", cascadeDelete)}}}},
+		{"AddFkConstraint", map[string]int64{"3": cascadeDelete}, []want{
+			{"fkConstraint", "self", map[string]string{"symbol": "param:1", "nullable": "param:2"}},
+			{"fkDeleteCascadeConstraint", "linked:1", map[string]string{"symbol": "param:1", "cascadeType": fmt.Sprintf("const:%d", cascadeDelete)}}}},
+		{"AddFkConstraint", map[string]int64{"3": createUpdate}, []want{
+			{"fkConstraint", "self", map[string]string{"symbol": "param:1", "nullable": "param:2"}}}},
+	}
+	for _, rw := range rows {
+		fn := p.SSAFunc(p.Method("boltz", "Indexer", rw.m))
+		name := FnName(fn)
+		if rw.consts != nil {
+			name += fmt.Sprintf(" (cascade=%d)", rw.consts["3"])
+		}
+		c.Analysed(FnName(fn))
+		paramNo := func(v ssa.Value) int {
+			for k := 0; k < 3; k++ {
+				if ci, isCI := v.(*ssa.ChangeInterface); isCI {
+					v = ci.X
 				}
 			}
-			fi := ComputeFacts(fn)
-			isDel := func(in ssa.Instruction) bool {
-				for _, d := range del {
-					if in == ssa.Instruction(d) {
-						return true
+			for i, prm := range fn.Params {
+				if v == ssa.Value(prm) {
+					return i
+				}
+			}
+			return -1
+		}
+		var oracle Oracle
+		oracle = func(v ssa.Value) (AV, bool) {
+			switch x := v.(type) {
+			case *ssa.Parameter:
+				if i := paramNo(x); i >= 0 {
+					if k, fixed := rw.consts[strconv.Itoa(i)]; fixed {
+						return avInt(k), true
 					}
+					if b, isB := x.Type().Underlying().(*types.Basic); isB && b.Kind() == types.Bool {
+						return AV{Kind: "sym", Sym: fmt.Sprintf("param:%d", i)}, true
+					}
+					return AV{Kind: "nonnil", Sym: fmt.Sprintf("param:%d", i)}, true
 				}
-				return false
-			}
-			createUpdate := constInt(p.Obj("boltz", "CascadeCreateUpdate"))
-			okDel := noPathAvoiding(fn, isDel, func(from, to *ssa.BasicBlock) bool {
-				for f := range fi.edgeFacts(from, to) {
-					if bo, isB := f.V.(*ssa.BinOp); isB && f.Kind == "true" {
-						if k, isK := bo.Y.(*ssa.Const); isK && k.Value != nil {
-							if v, _ := constantInt(k); v == createUpdate && ((bo.Op == token.NEQ && !f.Pol) || (bo.Op == token.EQL && f.Pol)) {
-								return true
-							}
+			case *ssa.Call:
+				if x.Call.IsInvoke() {
+					if i := paramNo(x.Call.Value); i >= 0 {
+						switch x.Call.Method.Name() {
+						case "GetStore":
+							return AV{Kind: "nonnil", Sym: fmt.Sprintf("store:%d", i)}, true
+						case "GetLinkedType":
+							return AV{Kind: "nonnil", Sym: fmt.Sprintf("linked:%d", i)}, true
 						}
 					}
 				}
-				return false
-			})
-			if !okDel {
-				ok, why = false, "a non-panicking path returns without registering the delete-side constraint on the target store"
+			case *ssa.TypeAssert:
+				// the store asked whether it can take constraints: it can
+				inner, ok := oracle(x.X)
+				if !ok {
+					if ci, isCI := x.X.(*ssa.ChangeInterface); isCI {
+						inner, ok = oracle(ci.X)
+					}
+				}
+				if ok && x.CommaOk {
+					return AV{Kind: "tuple", Tup: []AV{inner, avBool(true)}}, true
+				}
+				if ok {
+					return inner, true
+				}
+			}
+			return AV{}, false
+		}
+		evs, err := DecideCalls(fn, oracle, func(ci ssa.CallInstruction) bool {
+			if ci.Common().IsInvoke() {
+				return ci.Common().Method.Name() == "AddConstraint"
+			}
+			return isCallTo(ci, addC)
+		})
+		if err != "" {
+			c.Undecided(rule, name, p.Pos(fn.Pos()), "the registrations could not be evaluated: "+err)
+			continue
+		}
+		ok, why := true, ""
+		matched := make([]bool, len(evs))
+		for _, w := range rw.wants {
+			t := p.Named("boltz", w.typ)
+			found := false
+			for ei, ev := range evs {
+				last := len(ev.Args) - 1
+				if last < 0 || ev.ArgTypes[last] == nil || namedOf(ev.ArgTypes[last]) != t {
+					continue
+				}
+				found = true
+				matched[ei] = true
+				// registered on the right object
+				on := ""
+				if ev.Call.Common().IsInvoke() {
+					on = ev.Recv.Sym
+				} else if len(ev.Args) > 0 {
+					on = ev.Args[0].Sym
+				}
+				wantOn := w.on
+				if wantOn == "self" {
+					wantOn = "param:0"
+				}
+				if on != wantOn {
+					ok, why = false, fmt.Sprintf("the %s is registered on %q instead of %q: the constraint lands on the wrong store (a delete of a referenced entity is then neither refused nor cascaded)", w.typ, on, wantOn)
+				}
+				for fname, wantV := range w.fields {
+					got := ev.ArgFields[last][fieldIdx(t, fname)]
+					gs := got.Sym
+					if got.Kind == "const" {
+						if got.C.Kind() == constant.Bool {
+							gs = fmt.Sprintf("%v", constant.BoolVal(got.C))
+						} else {
+							gs = "const:" + got.C.ExactString()
+						}
+					}
+					if gs != wantV {
+						ok, why = false, fmt.Sprintf("the %s is built with %s = %s, expected %s", w.typ, fname, gs, wantV)
+					}
+				}
+			}
+			if !found {
+				ok, why = false, "no "+w.typ+" is registered"
 			}
 		}
-		c.Check(ok, rule, name, p.Pos(fn.Pos()), "registers the forward constraint and, on the referenced store, the matching delete-side constraint on every non-panicking path", why)
+		for ei, ev := range evs {
+			if !matched[ei] {
+				last := len(ev.Args) - 1
+				ok, why = false, fmt.Sprintf("an unexpected constraint is registered (%v)", ev.ArgTypes[last])
+			}
+		}
+		c.Check(ok, rule, name, p.Pos(fn.Pos()), "registers the forward constraint on this indexer and the matching delete-side constraint on the referenced store, each built from the right symbols and with the nullability / cascade the entry point stands for", why)
 	}
 	c.Floor(rule, 4)
 }
@@ -1218,6 +1315,56 @@ func ruleFkDelete(c *Ctx, rule string) {
 		}
 	}
 	c.Check(ok, rule, FnName(fd), p.Pos(fd.Pos()), "while a referrer exists the delete records a reference-exists error", "restrict-on-delete does not refuse when referrers exist")
+	// ... on every path: once the back-reference cursor was found valid, no return without the refusal (nothing
+	// may talk the constraint out of it afterwards — a "stale reference" filter, a second look at another store)
+	if ok {
+		isRefusal := func(in ssa.Instruction) bool {
+			call, isCall := in.(ssa.CallInstruction)
+			if !isCall || !invokeNamed(call, "SetError") {
+				return false
+			}
+			src, isSrc := call.Common().Args[len(call.Common().Args)-1].(*ssa.Call)
+			return isSrc && isCallTo(src, refErr)
+		}
+		escapes := ""
+		for _, b := range fd.Blocks {
+			iff, isIf := b.Instrs[len(b.Instrs)-1].(*ssa.If)
+			if !isIf {
+				continue
+			}
+			k, isCall := iff.Cond.(*ssa.Call)
+			if !isCall || !invokeNamed(k, "IsValid") {
+				continue
+			}
+			seen := map[*ssa.BasicBlock]bool{}
+			var walk func(blk *ssa.BasicBlock) bool
+			walk = func(blk *ssa.BasicBlock) bool {
+				if seen[blk] {
+					return false
+				}
+				seen[blk] = true
+				for _, in := range blk.Instrs {
+					if isRefusal(in) {
+						return false
+					}
+					if r, isRet := in.(*ssa.Return); isRet {
+						escapes = p.Pos(r.Pos())
+						return true
+					}
+				}
+				for _, s := range blk.Succs {
+					if walk(s) {
+						return true
+					}
+				}
+				return false
+			}
+			if walk(b.Succs[0]) {
+				break
+			}
+		}
+		c.Check(escapes == "", rule, FnName(fd)+": refusal on every path", p.Pos(fd.Pos()), "once a referrer was found no path returns without recording the reference-exists error", "although the back-reference cursor was found valid, a return ("+escapes+") is reachable without the reference-exists error being recorded: a referenced entity can be deleted and its referrers keep the dangling id")
+	}
 	// cascade constraint
 	fc := p.SSAFunc(p.Method("boltz", "fkDeleteCascadeConstraint", "ProcessBeforeDelete"))
 	c.Analysed(FnName(fc))
